@@ -87,9 +87,9 @@ func c05NrAPIs(cfg c05Cfg) int {
 	case 0:
 		return 2 // AddFullSample, AddFullSampleToTrack
 	case 1:
-		return 3 // AddSample, AddSampleToTrack, AddSamples
+		return 4 // AddSample, AddSampleToTrack, AddSamples (one sample), AddSamples (two samples in one call)
 	}
-	return 1 // AddSampleInterval
+	return 2 // AddSampleInterval with one sample, with two samples
 }
 
 // c05Build executes a history on real objects. A panic propagates to the caller (guard).
@@ -168,6 +168,18 @@ func c05Build(h *c05History) (*c05Built, error) {
 			counter++
 		}
 		fs := mp4.FullSample{Sample: s, DecodeTime: dt[tid], Data: data}
+		// API variants that add two samples in one call: the second sample is of another kind
+		var s2 mp4.Sample
+		var data2 []byte
+		two := !cfg.Multi && ((cfg.Class == 1 && op.API == 3) || (cfg.Class == 2 && op.API == 1))
+		if two {
+			s2 = c05Sample((op.Kind+5)%21, 0)
+			data2 = make([]byte, s2.Size)
+			for i := range data2 {
+				data2[i] = counter
+				counter++
+			}
+		}
 		var err error
 		switch cfg.Class {
 		case 0:
@@ -182,17 +194,27 @@ func c05Build(h *c05History) (*c05Built, error) {
 				frag.AddSample(s, dt[tid])
 			case !cfg.Multi && op.API == 2:
 				frag.AddSamples([]mp4.Sample{s}, dt[tid])
+			case two:
+				frag.AddSamples([]mp4.Sample{s, s2}, dt[tid])
 			default:
 				err = frag.AddSampleToTrack(s, tid, dt[tid])
 			}
-			b.FragData[len(b.FragData)-1] = append(b.FragData[len(b.FragData)-1], data...)
+			b.FragData[len(b.FragData)-1] = append(append(b.FragData[len(b.FragData)-1], data...), data2...)
 		case 2:
-			err = frag.AddSampleInterval(mp4.SampleInterval{FirstDecodeTime: dt[tid], Samples: []mp4.Sample{s}, Data: data})
+			if two {
+				err = frag.AddSampleInterval(mp4.SampleInterval{FirstDecodeTime: dt[tid], Samples: []mp4.Sample{s, s2}, Data: append(append([]byte{}, data...), data2...)})
+			} else {
+				err = frag.AddSampleInterval(mp4.SampleInterval{FirstDecodeTime: dt[tid], Samples: []mp4.Sample{s}, Data: data})
+			}
 		}
 		if err != nil {
 			return nil, err
 		}
 		b.Exp[tid] = append(b.Exp[tid], c05Expected{Data: data, S: s, DecTime: dt[tid]})
+		if two {
+			b.Exp[tid] = append(b.Exp[tid], c05Expected{Data: data2, S: s2, DecTime: dt[tid] + uint64(s.Dur)})
+			dt[tid] += uint64(s2.Dur)
+		}
 		dt[tid] += uint64(s.Dur)
 	}
 	return b, nil
@@ -530,7 +552,7 @@ func runC05(c *vf.Ctx) {
 		c.SetBudget(4 * 60 * 1e9)
 	}
 	allKinds := []int{0, 1, 2, 3, 4, 5, 6, 7, 8, 9, 10, 11, 12, 13, 14, 15, 16, 17, 18, 19, 20}
-	c.Rule = "explicit enumeration (DFS, every prefix checked) of all operation histories on a real MediaSegment: op = add sample (16 kinds = dur{1,2} x size{1,2} x {sync,non-sync} x cto{0,-1}, plus 5 boundary kinds: dur 2^31 / 2^32-1 / 0, cto +-2^31, all fields 0) to track t in {1} or {1,2,3} through each API variant of the data class (full: AddFullSample/AddFullSampleToTrack; metadata-only + separately written data: AddSample/AddSampleToTrack/AddSamples; intervals: AddSampleInterval), or start a new fragment (<= 2 fragments); configurations = {single, multi-track} x data class x OptimizeTrun on/off x Encode/EncodeSW x extra {none, emsg, free, unknown-in-traf, uuid-in-moof, prft, 64-bit mdat header, two sets of non-zero trex defaults in the init segment}. Each history is encoded, decoded by both decoders (GetFullSamples per track) and by an independent fragment reader, and compared with the added samples. Distinct = distinct encoded byte strings."
+	c.Rule = "explicit enumeration (DFS, every prefix checked) of all operation histories on a real MediaSegment: op = add sample (16 kinds = dur{1,2} x size{1,2} x {sync,non-sync} x cto{0,-1}, plus 5 boundary kinds: dur 2^31 / 2^32-1 / 0, cto +-2^31, all fields 0) to track t in {1} or {1,2,3} through each API variant of the data class (full: AddFullSample/AddFullSampleToTrack; metadata-only + separately written data: AddSample/AddSampleToTrack/AddSamples with one and with two samples per call; intervals: AddSampleInterval with one and with two samples), or start a new fragment (<= 2 fragments); configurations = {single, multi-track} x data class x OptimizeTrun on/off x Encode/EncodeSW x extra {none, emsg, free, unknown-in-traf, uuid-in-moof, prft, 64-bit mdat header, two sets of non-zero trex defaults in the init segment}. Each history is encoded, decoded by both decoders (GetFullSamples per track) and by an independent fragment reader, and compared with the added samples. Distinct = distinct encoded byte strings."
 	type job struct {
 		cfg   c05Cfg
 		depth int
